@@ -22,7 +22,7 @@ if [ -f "$src/demo/run.sh" ] && [ -z "$SKIP_DEMO" ]; then
 fi
 echo "$id: build=$b tests=$tests demo(patched)=$dp demo(unpatched)=$du"
 for p in "$@"; do
-  out=$(cd /verif && VERIF_REPO=$wt VERIF_OUT=/tmp/vs/$id.out ./vcheck check -prop "$p" -tier quick 2>&1 | grep -v '^WARNING'); 
+  out=$(cd ${VCHECK_DIR:-/verif} && VERIF_REPO=$wt VERIF_OUT=/tmp/vs/$id.out ./vcheck check -prop "$p" -tier quick 2>&1 | grep -v '^WARNING'); 
   v=$(printf '%s\n' "$out" | grep -c '^VIOLATION')
   echo "   $id $p: violations=$v $(printf '%s\n' "$out" | grep '^VIOLATION' | head -1 | cut -c1-220)"
   [ "$v" = 0 ] && echo "      $(printf '%s\n' "$out" | tail -2 | cut -c1-250 | tr '\n' '|')"
